@@ -1,4 +1,5 @@
 import TV.Proofs.FifoCache
+import TV.Proofs.MonitorFifoCache
 /-!
 # C01 — FifoMapCache is a map that may forget: fresh values, consistent views
 All theorems: every `n ≥ 1`, `pc ≥ 1`, every key/value type, every legal history.
@@ -76,5 +77,13 @@ example : keys (run (init 2 2 : Cache Nat Nat)
 example : keys (run (init 2 2 : Cache Nat Nat)
     [.set 1 10, .set 2 20, .set 1 11, .delete 2, .set 3 30, .set 4 40, .set 5 50, .sweep, .set 2 21, .sweep]) = [4, 5, 2] := by
   decide
+
+/-! ### the view monitor the driver applies to the *implementation's* observations decides exactly C01's view consistency
+
+(`has`/`get` are the implementation's answers to Contains/Get over the case's key alphabet `0 .. ph.length-1`.) -/
+theorem C01_monitor_views (v : Mon.View) :
+    Mon.viewsAgree v = true ↔
+      v.keys.Nodup ∧ (∀ a, a < v.ph.length → (v.has a = true ↔ a ∈ v.keys)) ∧ (∀ k ∈ v.keys, k < v.ph.length) ∧
+      v.vals.Perm (v.keys.map v.get) ∧ v.len = v.keys.length := Mon.viewsAgree_iff v
 
 end TV.C01
